@@ -71,6 +71,12 @@ def rate_pid(ctx, rng, H, K):
     worst_i, worst_a = 0.0, 0.0
     for k in range(K):
         dt = O.loguniform(rng, 1e-3, 1.0, H) if k % 5 else np.full(H, 1e-3)
+        if k % 17 == 9:  # the limit is a run-time input: it may be changed between steps (also below the stored state)
+            ch = rng.random(H) < 0.5
+            i_max = np.where(ch[:, None], i_max * rng.choice([0.1, 0.5, 2.0], (H, 1)), i_max)
+        if k % 23 == 11:  # ... and the previous integrator state is an input too: any value, not only reachable ones
+            ch = rng.random(H) < 0.3
+            i0 = np.where(ch[:, None], rng.normal(size=(H, 3)) * 5 * np.maximum(i_max, 0.1), i0)
         omega = drive(rng, H, K, k, 3, 10.0)
         omega_r = drive(rng, H, K, k + 1, 3, 10.0)
         (M, i1, e1, de1, alpha), _ = ev(kp, ki, kd, f_cut, i_max, omega, omega_r, i0, e0, de0, dt)
